@@ -119,6 +119,16 @@ def rps_for(delta):
     return None
 
 
+def timed_again(sc, rps):
+    """Repeat one wall-clock scenario: True when the window bound is missed again (a scheduling hiccup does not repeat)."""
+    res, _log = vf.run_api_worker("C19", {"scenarios": [{k: v for k, v in sc.items() if not k.startswith("_")}]})
+    if res is None or "driver_error" in res["records"][0]:
+        return True
+    times = [a["t"] for out in res["records"][0]["steps"] for a in out.get("arrivals", [])]
+    iv = 1.0 / rps
+    return any(times[i + k] - times[i] <= (k - 1) * iv - 0.6 * iv for k in (2, 3, len(times) - 1) if k >= 2 for i in range(0, len(times) - k))
+
+
 def session_part(c, thorough):
     """`through a rate-limited session`: every request of every operation of the sync and async clients is released by
     the session's policer.  (a) a counting subclass of the library's RPSPolicer passed as `policer=`: the j-th datagram
@@ -148,7 +158,7 @@ def session_part(c, thorough):
                 if ver == "v3":
                     sc["v3"] = v3
                 scs.append(sc)
-    rps = 25.0
+    rps = 10.0
     for ver in ("v1", "v2c"):
         for mode in ("sync", "async"):
             sc = {"version": ver, "mode": mode, "timeout": 0.5, "session_kw": {"limit_rps": rps}, "_kind": "timed",
@@ -187,7 +197,7 @@ def session_part(c, thorough):
             for k in (2, 3, len(times) - 1):
                 for i in range(0, len(times) - k):
                     span = times[i + k] - times[i]
-                    if span <= (k - 1) * iv - 0.6 * iv:
+                    if span <= (k - 1) * iv - 0.6 * iv and timed_again(sc, rps):
                         c.violation("%s (limit_rps=%g): requests %d..%d reached the agent within %.1f ms, the bound is more than %.1f ms"
                                     % (label, rps, i + 1, i + k + 1, span * 1000, (k - 1) * iv * 1000),
                                     {"scenario": {kk: v for kk, v in sc.items() if not kk.startswith("_")}, "arrival_times_ms": [round((t - times[0]) * 1000, 2) for t in times]},
@@ -197,7 +207,7 @@ def session_part(c, thorough):
                     continue
                 break
     c.coverage["session_requests_observed"] = n
-    c.assumptions.append("session part (b): arrival times at a loopback agent stand for release times; the window bound is tested with 0.6 interval of slack at 25 rps")
+    c.assumptions.append("session part (b): arrival times at a loopback agent stand for release times; the window bound is tested with 0.6 interval (60 ms) of slack at 10 rps; a miss is repeated once before it counts")
     return n
 
 
